@@ -449,6 +449,12 @@ class Driver:
         if how != "mkcol-plain" and kind != "plain" and self.rng.random() < (0.5 if how in ("auto", "mkcol-ext") else 0.8):
             props = [(X.P_DISPLAYNAME, "name " + self.w.new_token())]
         self.w.mkcol(path, kind, how=how, props=props)
+        back = getattr(self, "dead_bodies", {}).pop(path, None)
+        if back and path in self.w.cols and self.rng.random() < 0.7:
+            # the same bytes under the same name in the new incarnation of a deleted collection
+            n, body, uid, tok = self.rng.choice(back)
+            self.w.put(path, n, body, op="put_into_recreated", uid=uid, token=tok)
+            self.count("put_into_recreated")
         return [path, self.w.parent_of(path)]
 
     def op_mkcol_existing(self):
@@ -463,10 +469,14 @@ class Driver:
         if col is None or col.backend == "bare":
             return None
         path, kind = col.path, col.kind
+        bodies = [(n, (m.served if m.served is not None else m.uploaded), m.uid, m.token) for n, m in sorted(col.members.items())][:3]
         self.w.delete(path, None)
         if path not in self.w.cols:
             self.dead_cols.append((path, kind))
             self.pools.pop(path, None)
+            if not hasattr(self, "dead_bodies"):
+                self.dead_bodies = {}
+            self.dead_bodies[path] = bodies
         return [self.w.parent_of(path)]
 
     def op_put_missing_col(self):
